@@ -188,6 +188,17 @@ func vfC08Run(e *vfEnv, r *vfResult, idx int, plan vfC08Plan) { //nolint:cyclop,
 		_ = a.Close()
 		vfForgetTicker(a)
 	}()
+	// every gathering cycle's done channel (also of cycles superseded by a Restart: they wind down on their own time)
+	var cyclesMu sync.Mutex
+	var cycles []chan struct{}
+	noteCycle := func() {
+		var d chan struct{}
+		if a.loop.Run(a.loop, func(context.Context) { d = a.gatherCandidateDone }) == nil && d != nil {
+			cyclesMu.Lock()
+			cycles = append(cycles, d)
+			cyclesMu.Unlock()
+		}
+	}
 	var closeOnce sync.Once
 	closeResults := make(chan error, 16)
 	var closersWG sync.WaitGroup
@@ -328,6 +339,7 @@ func vfC08Run(e *vfEnv, r *vfResult, idx int, plan vfC08Plan) { //nolint:cyclop,
 			case "candidate-callback":
 				_ = a.Restart("", "")
 				_ = a.GatherCandidates()
+				noteCycle()
 			case "pair-callback":
 			}
 			time.Sleep(2 * time.Millisecond)
@@ -343,6 +355,7 @@ func vfC08Run(e *vfEnv, r *vfResult, idx int, plan vfC08Plan) { //nolint:cyclop,
 		if err := a.GatherCandidates(); err != nil {
 			return
 		}
+		noteCycle()
 		var reqs []*vfDgram
 		for dl := time.Now().Add(2 * time.Second); len(reqs) == 0 && time.Now().Before(dl); time.Sleep(20 * time.Microsecond) {
 			reqs = append(reqs, srv.pump()...)
@@ -450,6 +463,7 @@ func vfC08Run(e *vfEnv, r *vfResult, idx int, plan vfC08Plan) { //nolint:cyclop,
 			s.sw.mu.Unlock()
 		}
 		_ = a.GatherCandidates()
+		noteCycle()
 		if plan.Fault == "write-blocks" {
 			for dl := time.Now().Add(2 * time.Second); time.Now().Before(dl); time.Sleep(50 * time.Microsecond) {
 				blocked := false
@@ -541,6 +555,19 @@ func vfC08Run(e *vfEnv, r *vfResult, idx int, plan vfC08Plan) { //nolint:cyclop,
 		}
 	}
 	// ---- later API calls return promptly, with the closed error where the result depends on agent state, and without effect
+	// a cycle superseded by Restart may still be winding down (its STUN query can go out after Close returned): wait
+	// for every cycle, so that what is emitted from here on can only be a reaction to the calls below
+	cyclesMu.Lock()
+	cs := append([]chan struct{}{}, cycles...)
+	cyclesMu.Unlock()
+	woundDown := true
+	for _, c := range cs {
+		select {
+		case <-c:
+		case <-time.After(5 * time.Second):
+			woundDown = false
+		}
+	}
 	w0 := s.sw.wireLen()
 	smu.Lock()
 	nStates := len(states)
@@ -613,7 +640,7 @@ func vfC08Run(e *vfEnv, r *vfResult, idx int, plan vfC08Plan) { //nolint:cyclop,
 			emitted++
 		}
 	}
-	if emitted > 0 {
+	if emitted > 0 && woundDown {
 		r.violation("effect-after-close:datagram", fmt.Sprintf("%d datagram(s) left the closed agent's sockets in reaction to API calls", emitted), wit)
 	}
 	// ---- final notified state is Closed, nothing after it
